@@ -1,5 +1,5 @@
 """families.py - generated program families (module ASTs) shared by the E2 checks."""
-import random
+import random, zlib
 from wasmenc import *
 from refgen import SIG, TRAPPING
 
@@ -657,4 +657,40 @@ def const_family(seed, quick):
         m = Module(funcs=[f], mems=[(1, 1)], tables=[(8, 8)], datas=[Data(('i32.const', off), b'\x01\x02\x03\x04')],
                    elems=[Elem(('i32.const', off), [0])], exports=[('ld', 'func', 0)])
         out.append(('const_offset_%d' % off, m, [{'call': 'ld'}], {'tab_slots': 8}))
+    return out
+
+
+# ====================================================================== C16 atomics
+def atomics_family(seed, quick):
+    out = []
+    VT = {'i32': I32, 'i64': I64}
+    mems = [(1, 1, True)]
+    datas = [Data(('i32.const', 8), bytes([0x81, 0x7F, 0xFF, 0x00, 0x80, 0x01, 0xFE, 0x55, 0xAA, 0x33]))]
+    offs = [0, 8] if quick else [0, 8, 24]
+    rd = Func([I32], [I64], [], [('local.get', 0), ('i64.load', 0, 0)])
+    for op in ATOMIC_LOADS + ATOMIC_STORES + ATOMIC_RMW:
+        from refgen import atomic_info
+        kind, vts, width, rop = atomic_info(op)
+        vt = VT[vts]
+        al = natural_align(op)
+        for off in offs:
+            if quick and off != 0 and (zlib.crc32(op.encode()) + off) % 3 != 0:
+                continue
+            if kind == 'load':
+                f = Func([I32], [vt], [], [('local.get', 0), (op, al, off)])
+            elif kind == 'store':
+                f = Func([I32, vt], [], [], [('local.get', 0), ('local.get', 1), (op, al, off)])
+            elif kind == 'rmw':
+                f = Func([I32, vt], [vt], [], [('local.get', 0), ('local.get', 1), (op, al, off)])
+            else:
+                f = Func([I32, vt, vt], [vt], [], [('local.get', 0), ('local.get', 1), ('local.get', 2), (op, al, off)])
+            m = Module(funcs=[f, rd], mems=mems, datas=datas, exports=[('f', 'func', 0), ('rd', 'func', 1)])
+            # natural alignment of the effective address is the property's precondition
+            script = [{'call': 'f', 'assume': {0: '(($ + %dull) %% %d) == 0' % (off, width)}}, {'call': 'rd'}]
+            if kind in ('rmw', 'cmpxchg'):
+                # two operations in sequence on the same location: results consistent with that order
+                script = [script[0], dict(script[0]), script[1]]
+            out.append(('atomic_%s_o%d' % (op.replace('.', '_'), off), m, script, {'sym_window': 8}))
+    fence = Func([I32], [I32], [], [('atomic.fence',), ('local.get', 0)])
+    out.append(('atomic_fence', Module(funcs=[fence], mems=mems, exports=[('f', 'func', 0)]), [{'call': 'f'}], {}))
     return out
